@@ -641,7 +641,7 @@ def strategy(tier):
 
 
 def budget(tier):
-    return 600 if tier == "quick" else 12000
+    return 600 if tier == "quick" else 60000
 
 
 def explicit(tier, seed):
